@@ -385,3 +385,189 @@ pub fn c16_pause(cx: &mut Ctx) {
         cx.probe("c16_pause_interval");
     }
 }
+
+/// C17 — shutdown is graceful.
+pub fn c17_shutdown(cx: &mut Ctx) {
+    let h = cx.h;
+    let timeout_us = cx.param_u64("shutdown_timeout", 60000) * 1000;
+    let how = cx.param_str("how");
+    let lat = cx.spec.net.latency_ms.1 * 1000 + cx.spec.net.jitter_ms * 1000;
+    let slack = 60_000 + 4 * lat;
+    let raised = simcore::signal::raised();
+    let sig = match raised.iter().find(|(_, _, n)| *n == 2 || *n == 15) {
+        Some(s) => *s,
+        None => {
+            cx.probe("c17_no_signal_raised");
+            return;
+        }
+    };
+    cx.probe("c17_signal_raised");
+    let exit = simcore::rt::pgcat_exit();
+    let kinds = cx.spec.params.get("client_kinds").cloned().unwrap_or_default();
+    let kind_of = |id: u32| kinds.get(id.to_string()).and_then(|v| v.as_str()).unwrap_or("").to_string();
+    let (exit_seq, exit_us) = match exit {
+        Some(e) => e,
+        None => {
+            cx.v("C17", "no_exit", &format!("C17/no_exit/{}", how), sig.0, format!("signal {} was raised at {} ms but PgCat's main never returned (shutdown_timeout {} ms)", sig.2, sig.1 / 1000, timeout_us / 1000));
+            return;
+        }
+    };
+    if sig.2 == 15 {
+        if exit_us > sig.1 + 20_000 {
+            cx.v("C17", "sigterm_not_immediate", "C17/sigterm_not_immediate", exit_seq, format!("SIGTERM at {} ms, main returned at {} ms", sig.1 / 1000, exit_us / 1000));
+        }
+        cx.probe("c17_sigterm");
+        return;
+    }
+    // ---- SIGINT / SHUTDOWN ----
+    if exit_us > sig.1 + timeout_us + slack {
+        cx.v("C17", "exit_after_timeout", "C17/exit_later_than_shutdown_timeout", exit_seq, format!("SIGINT at {} ms, shutdown_timeout {} ms, but main returned only at {} ms", sig.1 / 1000, timeout_us / 1000, exit_us / 1000));
+    }
+    let admin_msg = "terminating connection due to administrator command";
+    let mut all_gone_us = sig.1;
+    let mut someone_outlives_timeout = false;
+    for c in h.clients.values() {
+        let k = kind_of(c.id);
+        if c.role == "admin" && k != "admin_arrival" {
+            continue;
+        }
+        let session = cx.pool_mode(&c.database, &c.user) == "session";
+        let end_us = c.steps.last().map(|s| s.done_us).unwrap_or(c.connect_us);
+        match k.as_str() {
+            "idle" | "idle_fresh" => {
+                let holds_server = session && k == "idle";
+                let hold = c.steps.iter().find(|s| s.op == "hold");
+                if let Some(hs) = hold {
+                    let told = hs.msgs.iter().any(|m| m.ty == b'E' && proto::error_fields(&m.body).get(&'M').map(|x| x.contains(admin_msg)).unwrap_or(false));
+                    if !holds_server {
+                        if hs.start_us + 1_000 < sig.1 && c.auth_result == "ok" {
+                            cx.probe("c17_idle_client_at_signal");
+                            if !told && hs.done_us + 5_000 < exit_us {
+                                cx.v("C17", "idle_client_not_notified", "C17/idle_client_closed_without_error", hs.done_seq, format!("idle client {} was disconnected at {} ms without the administrator-command error", c.id, hs.done_us / 1000));
+                            }
+                            if hs.done_us > sig.1 + slack && hs.done_us + 5_000 < exit_us || (!told && exit_us > sig.1 + slack + 20_000 && hs.done_us + 5_000 >= exit_us) {
+                                cx.v("C17", "idle_client_not_disconnected", "C17/idle_client_kept_after_sigint", hs.done_seq, format!("transaction-mode client {} was idle at SIGINT ({} ms) but was only released at {} ms (told: {}; exit at {} ms)", c.id, sig.1 / 1000, hs.done_us / 1000, told, exit_us / 1000));
+                            }
+                            all_gone_us = all_gone_us.max(hs.done_us.min(sig.1 + slack));
+                        }
+                    } else {
+                        someone_outlives_timeout = true;
+                    }
+                }
+            }
+            "mid_txn_short" | "mid_txn_long" => {
+                // was a transaction of this client in progress (as far as the client knows: it had
+                // received ReadyForQuery 'T' and no later 'I') when the signal was raised?
+                let mut in_progress = false;
+                for s in c.steps.iter().filter(|s| s.op == "send" && s.done_us < sig.1) {
+                    match s.outcome {
+                        StepOutcome::Ready(b'I') => in_progress = false,
+                        StepOutcome::Ready(_) => in_progress = true,
+                        _ => {}
+                    }
+                }
+                if !in_progress {
+                    continue;
+                }
+                cx.probe("c17_mid_transaction_client_at_signal");
+                let mut finished_txn = false;
+                for s in &c.steps {
+                    if s.op != "send" {
+                        continue;
+                    }
+                    match &s.outcome {
+                        StepOutcome::Ready(st) => {
+                            if *st == b'I' && s.start_us > c.connect_us {
+                                finished_txn = s.tags.iter().any(|t| t.s >= 3) || finished_txn;
+                            }
+                        }
+                        StepOutcome::Closed(_) | StepOutcome::Timeout => {
+                            // cut: only acceptable at process exit
+                            if s.done_us + 5_000 < exit_us {
+                                cx.v("C17", "in_progress_transaction_killed", "C17/in_progress_transaction_killed", s.done_seq, format!("client {} was inside a transaction at SIGINT; its step {} was cut at {} ms, before the process exited ({} ms; SIGINT {} ms, timeout {} ms)", c.id, s.idx, s.done_us / 1000, exit_us / 1000, sig.1 / 1000, timeout_us / 1000));
+                            } else if k == "mid_txn_short" && exit_us + slack < sig.1 + timeout_us {
+                                cx.v("C17", "exit_before_transaction_finished", "C17/exit_before_transaction_finished", s.done_seq, format!("client {}'s transaction (due to end well inside the shutdown timeout) was cut by the process exit at {} ms; SIGINT {} ms, timeout {} ms", c.id, exit_us / 1000, sig.1 / 1000, timeout_us / 1000));
+                            }
+                        }
+                        _ => {}
+                    }
+                }
+                if k == "mid_txn_short" && finished_txn {
+                    cx.probe("c17_in_progress_transaction_finished");
+                }
+                if k == "mid_txn_long" {
+                    someone_outlives_timeout = true;
+                }
+                // afterwards idle (transaction mode): told to go
+                if let Some(hs) = c.steps.iter().find(|s| s.op == "hold") {
+                    if !session && hs.start_us + slack < exit_us {
+                        let told = hs.msgs.iter().any(|m| m.ty == b'E' && proto::error_fields(&m.body).get(&'M').map(|x| x.contains(admin_msg)).unwrap_or(false));
+                        if !told && hs.done_us + 5_000 < exit_us {
+                            cx.v("C17", "idle_client_not_notified", "C17/idle_client_closed_without_error", hs.done_seq, format!("client {} became idle after its transaction and was disconnected without the administrator-command error", c.id));
+                        }
+                        // it must be sent away as soon as it is idle, not kept until the timeout
+                        if hs.start_us > sig.1 && hs.done_us > hs.start_us + slack + 20_000 {
+                            cx.v("C17", "idle_client_not_disconnected", "C17/idle_client_kept_after_transaction_end", hs.done_seq, format!("client {} finished its transaction at {} ms, during shutdown, and stayed connected and idle until {} ms (exit at {} ms)", c.id, hs.start_us / 1000, hs.done_us / 1000, exit_us / 1000));
+                        }
+                        cx.probe("c17_client_idle_after_in_progress_transaction");
+                    }
+                    if session {
+                        someone_outlives_timeout = true;
+                    }
+                }
+                all_gone_us = all_gone_us.max(end_us);
+            }
+            "arrival" => {
+                if c.connect_us + 5_000 < exit_us && c.connected {
+                    cx.probe("c17_new_client_during_shutdown");
+                    if c.auth_ok_seq.is_some() || c.auth_result == "ok" {
+                        cx.v("C17", "new_client_admitted", "C17/new_client_admitted_during_shutdown", c.auth_ok_seq.unwrap_or(0), format!("non-admin client {} connected at {} ms, after SIGINT ({} ms), and was authenticated", c.id, c.connect_us / 1000, sig.1 / 1000));
+                    } else if !c.auth_result.contains("administrator command") && end_us + slack < exit_us {
+                        cx.v("C17", "new_client_wrong_error", "C17/new_client_refused_without_admin_error", c.connect_seq, format!("non-admin client {} arriving during shutdown got {:?} instead of the administrator-command error", c.id, c.auth_result));
+                    }
+                }
+            }
+            "admin_arrival" => {
+                let last = c.steps.iter().filter(|s| s.op == "send").last();
+                if c.connected && last.map(|s| s.done_us + slack < exit_us).unwrap_or(false) {
+                    cx.probe("c17_admin_login_during_shutdown");
+                    if c.auth_result != "ok" {
+                        cx.v("C17", "admin_refused", "C17/admin_refused_during_shutdown", c.connect_seq, format!("admin client {} could not log in during shutdown: {}", c.id, c.auth_result));
+                    }
+                    for s in c.steps.iter().filter(|s| s.op == "send") {
+                        if !step_ok(s) {
+                            cx.v("C17", "admin_refused", "C17/admin_command_failed_during_shutdown", s.done_seq, format!("admin client {} step {} ended {:?}", c.id, s.idx, s.outcome));
+                        }
+                    }
+                }
+            }
+            _ => {}
+        }
+    }
+    // exits once everybody has left (not only when the timeout fires): every non-admin client
+    // that was ever admitted, and the moment its connection ended as seen by the client itself
+    let mut last_end = sig.1;
+    for c in h.clients.values() {
+        if c.role == "admin" || c.database == "pgcat" || c.auth_result != "ok" {
+            continue;
+        }
+        let end = c.steps.last().map(|s| s.done_us).unwrap_or(c.connect_us).max(c.connect_us);
+        let end = if c.finished { end } else { u64::MAX / 4 };
+        last_end = last_end.max(end);
+    }
+    let _ = all_gone_us;
+    if last_end + slack + 40_000 < sig.1 + timeout_us {
+        cx.probe("c17_all_clients_gone_before_timeout");
+        if exit_us > last_end + slack + 40_000 {
+            cx.v("C17", "exit_not_prompt", "C17/exit_waits_for_timeout_although_all_clients_left", exit_seq, format!("every non-admin client had left by {} ms, but main returned only at {} ms (SIGINT {} ms, timeout {} ms)", last_end / 1000, exit_us / 1000, sig.1 / 1000, timeout_us / 1000));
+        }
+    }
+    if someone_outlives_timeout {
+        cx.probe("c17_timeout_path");
+        if exit_us + slack < sig.1 + timeout_us {
+            cx.v("C17", "exit_too_early", "C17/exit_before_timeout_with_clients_connected", exit_seq, format!("main returned at {} ms although a client was still connected and the shutdown timeout ({} ms after SIGINT at {} ms) had not passed", exit_us / 1000, timeout_us / 1000, sig.1 / 1000));
+        }
+    }
+    // results of transactions that straddled the signal are byte-exact
+    data::relay_check(cx, "C17", false);
+}
